@@ -891,6 +891,10 @@ func (t *fnTrans) externalCall(in ssa.Instruction, name string, cc *ssa.CallComm
 			t.libErrorFact(rs[0])
 		}
 	}
+	// trusted library fact: errors.As / errors.Is report false for a nil error
+	if (name == "errors.As" || name == "errors.Is") && len(rs) == 1 && len(cc.Args) == 2 {
+		t.assume(implies("(= (itag "+t.val(cc.Args[0])+") 0)", not(rs[0])))
+	}
 }
 
 func (t *fnTrans) unknownCall(in ssa.Instruction, cc *ssa.CallCommon, res ssa.Value) {
@@ -1296,10 +1300,27 @@ func (t *fnTrans) mAtomicAdd(in ssa.Instruction, cc *ssa.CallCommon, res ssa.Val
 	t.atomicAccess(l, in.Pos())
 	old := t.load(l)
 	pt := cc.Args[0].Type().Underlying().(*types.Pointer)
-	nv := t.wrapAny("(+ "+old+" "+t.val(cc.Args[1])+")", pt.Elem())
+	t.assumeType(old, pt.Elem())
+	nv := t.wrapSum("(+ "+old+" "+t.val(cc.Args[1])+")", pt.Elem())
 	n := t.setVal(res, nv)
 	t.storeLoc(l, n)
 	return true
+}
+
+// wrapSum: two's-complement wrap of the sum of two values of integer type ty.  Both operands are
+// values of that Go type, so the sum is off by at most one modulus: a conditional instead of
+// `mod` (which the solvers answer `unknown` on as soon as quantified invariants are around).
+func (t *fnTrans) wrapSum(e string, ty types.Type) string {
+	bits, uns, ok := intBits(ty)
+	if !ok || bits >= 64 {
+		return t.wrapAny(e, ty)
+	}
+	m := pow2(bits)
+	if uns {
+		return "(ite (>= " + e + " " + m + ") (- " + e + " " + m + ") (ite (< " + e + " 0) (+ " + e + " " + m + ") " + e + "))"
+	}
+	h := pow2(bits - 1)
+	return "(ite (>= " + e + " " + h + ") (- " + e + " " + m + ") (ite (< " + e + " (- " + h + ")) (+ " + e + " " + m + ") " + e + "))"
 }
 
 func (t *fnTrans) wrapAny(e string, ty types.Type) string {
